@@ -257,7 +257,7 @@ def run(report, p):
         for call, tg in p.calls[df.qual]:
             if loader.qual in tg:
                 r7.instance(df, call, norm(call)[:80])
-                deps = [(tt, l) for tt, l in gd.control_deps(gd.node_for(call)) if tt.kind == "test"]
+                deps = [(tt, l) for tt, l in gd.control_deps(gd.node_for(call), through_loops=False) if tt.kind == "test"]  # conditions of the same walk iteration
                 extra = []
                 seen_root, seen_in = False, False
                 for tt, l in deps:
@@ -345,7 +345,7 @@ def run(report, p):
             if t.kind != "test":
                 continue
             tt = norm(t.ast).replace('"', "'")
-            if tt.startswith(("event ==", "tag ==", "tag in ", "type(current_object) is ")) or tt in ("current_object", "not current_object", "current_object is not None", "current_object is None"):
+            if _dispatch_only(p, creader, t.ast):
                 continue
             extra.append((tt, l))
         r8.check(not extra, creader, c, f"the chain reader keeps a parsed <hashlist> entry only under the additional condition {extra}: dropped entries are never verified", construct=f"chain entry kept under {extra}")
@@ -373,6 +373,30 @@ def run(report, p):
     # ---- rules shared with other properties (same mechanism, same rule, reported under every property it can break)
     include_rules(report, p, 'c01', ['R1.1', 'R1.4'], 'manifest tampering is detected by the c4 digest of the complete manifest file')
     report.not_decided += ["that every byte edit changes the c4 digest (trusted)", "behaviour on chain files not produced by the tool", "concrete exit codes observed at run time"]
+
+
+def _dispatch_only(p, f, test) -> bool:
+    """the condition inspects only the parser state (event kind, tag name, which container is open) - never the content of the entry"""
+    for n in ast.walk(test):
+        if isinstance(n, ast.Attribute):
+            base = n
+            while isinstance(base, ast.Attribute):
+                base = base.value
+            if isinstance(base, ast.Name) and base.id in ("element",) and n.attr != "tag":
+                return False
+            if isinstance(base, ast.Name) and base.id == "current_object":
+                return False
+        if isinstance(n, ast.Call) and norm(n.func) not in ("type", "isinstance", "len"):
+            if not (isinstance(n.func, ast.Attribute) and n.func.attr in ("split", "endswith", "startswith") and "tag" in norm(n.func.value)):
+                return False
+        if isinstance(n, ast.Name):
+            if n.id in ("event", "tag", "current_object", "element", "type", "isinstance", "len", "None", "True", "False"):
+                continue
+            q = p.resolve_name_expr(n, f.module)
+            if q in p.classes or (q or "").endswith(("supported_hashformats", "ascmhl_supported_hashformats")):
+                continue
+            return False
+    return True
 
 
 def _in_body(node, tr: ast.Try):
